@@ -261,7 +261,8 @@ def primezeta(ctx, s):
     if s == 0.5:
         return ctx.mpc(ctx.ninf, ctx.pi)
     r = ctx.re(s)
-    if r > ctx.prec:
+    # 3^-s is below 2^-prec relative to 2^-s only when s > 1.71*prec
+    if r > 2*ctx.prec:
         return 0.5**s
     else:
         wp = ctx.prec + int(r)
